@@ -255,6 +255,29 @@ class Gen:
         t = r.sample(TEMPS, 2)
         self.emit(f"{f.name}:", None, indent=False)
         self.emit(f"addi sp, sp, -{frame}", "prologue-sp")
+        if r.random() < 0.5:
+            # the other layout: the return address in the frame's top word, the buffer in the bytes of the word
+            # right below it (seed C04-t rounded the slot of an unaligned sub-word store up, onto the saved word)
+            self.stats["bytebuf_below_saved"] = self.stats.get("bytebuf_below_saved", 0) + 1
+            self.emit(f"sw ra, {frame - 4}(sp)", "save")
+            self.emit(f"sb zero, {frame - 5}(sp)", "store-local")
+            if f.nargs >= 1:
+                self.emit(f"andi {t[0]}, a0, 15", "arith")
+            else:
+                self.emit(f"li {t[0]}, {r.choice([3, 9])}", "li-temp")
+            for i in range(1, f.nargs):
+                self.emit(f"add {t[0]}, {t[0]}, a{i}", "arith")
+            self.emit(f"addi {t[0]}, {t[0]}, 48", "arith")
+            self.emit(f"sb {t[0]}, {frame - 6}(sp)", "store-local")
+            self.emit(f"sb {t[0]}, {frame - 7}(sp)", "store-local")
+            self.emit(f"sh {t[0]}, {frame - 10}(sp)", "store-local")
+            self.emit(f"lbu {t[1]}, {frame - 5}(sp)", "load-local")
+            self.emit(f"lbu {t[0]}, {frame - 7}(sp)", "load-local")
+            self.emit(f"add a0, {t[0]}, {t[1]}", "set-result")
+            self.emit(f"lw ra, {frame - 4}(sp)", "restore")
+            self.emit(f"addi sp, sp, {frame}", "epilogue-sp")
+            self.emit("ret", "ret")
+            return
         self.emit("sw ra, 0(sp)", "save")
         self.emit(f"sb zero, {frame - 1}(sp)", "store-local")
         if f.nargs >= 1:
@@ -468,6 +491,8 @@ class Gen:
         regs = r.sample(SAVED, 3)
         acc = regs[0]
         self.emit(f"li {acc}, {r.choice([0, 1, 3])}", "init-acc")
+        if r.random() < 0.3:
+            self.emit("nop", "nop")          # written to do nothing: no diagnostic (repair 8cf7cf2)
         ctx = {"acc": acc, "vars": [], "counters": regs[1:], "callees": fns}
         self.stmts(ctx, 0)
         # make sure every function is called
@@ -476,6 +501,8 @@ class Gen:
                 self.emit(f"mv a{i}, {acc}", "arg-setup")
             self.emit(f"jal {f.name}", "call")
             self.emit(f"add {acc}, {acc}, a0", "use-result")
+            if r.random() < 0.2:
+                self.emit(r.choice(["nop", "addi x0, x0, 0", "addi zero, zero, 0"]), "nop")
         self.emit(f"mv a0, {acc}", "arg-setup")
         self.emit("li a7, 93", "li-a7")
         self.emit("ecall", "exit")
